@@ -31,10 +31,10 @@ def gen(chk):
     cid = itertools.count(1)
     meta = {}
     streams = {}
-    def add(stream, c, flags=STD):
+    def add(stream, c, flags=STD, cmds="c"):
         i = "g%d" % next(cid)
         meta[i] = (c, flags)
-        streams.setdefault(stream, []).append("spend id=%s tx=%s txin=%s flags=%d cmds=c" % (i, hx(c["spend"]), hx(c["fund"]), flags))
+        streams.setdefault(stream, []).append("spend id=%s tx=%s txin=%s flags=%d cmds=%s" % (i, hx(c["spend"]), hx(c["fund"]), flags, cmds))
     def shape():
         nin = rng.choice([1, 1, 2, 3]); return nin, rng.randrange(nin)
     # hash types, ECDSA
@@ -63,6 +63,20 @@ def gen(chk):
                 ht = rng.choice([1, 2, 3, 0x81, 0x82, 0x83]) if not k.startswith("p2tr") else rng.choice([0, 1, 2, 3, 0x81, 0x83])
                 c = S.build(rng, k, nin=nin, pos=pos, ht=ht, mutate=mut, annex=(b"\x50\x01" if k.startswith("p2tr") and rng.random() < 0.3 else None))
                 add("codesep", c, STD & ~S.F_CONST); add("codesep", c, STD)
+    # FindAndDelete: the executing script contains pushes of the signature it verifies (first, before a NOP, at the very end)
+    for wn in (0, 1, 2):
+        for _ in range(2 if q else 10):
+            for mut in (None, "wrongkey"):
+                nin, pos = shape()
+                c = S.build(rng, "bare-fad", nin=nin, pos=pos, ht=rng.choice([1, 2, 3, 0x81]), mutate=mut, wn=wn)
+                add("codesep", c, STD & ~S.F_CONST); add("codesep", c, STD)
+    # the code separator position after REWINDS (tapscript signs over the position of the last executed OP_CODESEPARATOR): walk forward, back, on
+    for k in CODESEP:
+        for _ in range(2 if q else 10):
+            nin, pos = (1, 0) if k.startswith("p2tr") else shape()
+            c = S.build(rng, k, nin=nin, pos=pos, ht=(1 if not k.startswith("p2tr") else 0))
+            a = rng.randrange(1, 8); b = rng.randrange(1, a + 1)
+            add("codesep", c, STD & ~S.F_CONST, cmds=",".join(["s"] * a + ["r"] * b + ["s"] * rng.randrange(0, 4) + ["r"] * rng.randrange(0, 2) + ["c"]))
     # encoding variants x flag subsets
     for k in ECDSA + ["p2sh-codesep", "p2tr-keytype"]:
         for enc in (None, "highs", "padded", "uncompressed", "nonnulldummy"):
